@@ -157,6 +157,35 @@ pub fn magic_sweep(kv: &Args) {
             }
         }
     }
+    // generators constructed inside rayon pools of several sizes (the tables are filled at construction):
+    // a lone slider on every square, on the empty board and with every relevant blocker square occupied
+    for threads in [1usize, 2, 3, 5, 6, 7, 9, 12] {
+        let pool = rayon::ThreadPoolBuilder::new().num_threads(threads).build().unwrap();
+        let mut g = pool.install(|| MoveGenerator::with_cache_capacity(16));
+        for (name, piece, dirs) in [("rook", Piece::Rook, ROOK_DIRS), ("bishop", Piece::Bishop, BISHOP_DIRS)] {
+            for sq in 0..64usize {
+                for occ in [0u64, relevant_mask(sq, &dirs)] {
+                    let mut b = Board::new();
+                    b.put(bb(sq), piece, Color::White).unwrap();
+                    for i in 0..64 {
+                        if occ & (1u64 << i) != 0 {
+                            b.put(bb(i), Piece::Rook, Color::Black).unwrap();
+                        }
+                    }
+                    g.clear_caches_for_verif();
+                    let got = g.get_attack_targets(&b, Color::White).0;
+                    let want = ray_ref(sq, occ | (1u64 << sq), &dirs);
+                    cases += 1;
+                    if got != want {
+                        fails += 1;
+                        if fails <= 8 {
+                            println!("! C11 generator built in a pool of {} threads: {} on {} with occupancy {:x}: engine {:x}, ray walk {:x}", threads, name, sqname(sq), occ | (1u64 << sq), got, want);
+                        }
+                    }
+                }
+            }
+        }
+    }
     // knights and kings: all 64 squares, alone and with random other pieces around
     for (name, piece) in [("knight", Piece::Knight), ("king", Piece::King)] {
         for sq in 0..64usize {
